@@ -105,10 +105,13 @@ theorem window_eq {x : CIndex.Chk} {c : ChunkIdx} (h : RefChk x c) (s : RangedIt
         window ⟨x.minTs, x.maxTs⟩ (idxOf c) ⟨s.rmin, s.rmax⟩ ∧
       (RangedIter.updatePoss s cid st).1.count = st.count := by
   have hnot : ¬ (st.count > x.recs) := by omega
+  have e1 : Generated.C02.updatePossLowerErrPos = 0 := by decide
+  have e2 : Generated.C02.updatePossUpperErrPos = Selector.maxU32 := by decide
   unfold RangedIter.updatePoss
   rw [hf]
   simp only [hnot, decide_false, Bool.and_false, Bool.false_eq_true, if_false]
   unfold Selector.updatePossWith window
+  rw [e1, e2]
   by_cases hout : s.rmax < x.minTs ∨ s.rmin > x.maxTs
   · have : (decide (s.rmax < x.minTs) || decide (s.rmin > x.maxTs)) = true := by simpa using hout
     simp [this, hout, Selector.maxU32, maxU32]
